@@ -1,6 +1,6 @@
 """C02 optimizer preserves IR behaviour at every level and for every pass (DESIGN C02)."""
 PROPERTY = "C02"
-RULE = ("three of four modules from vlib.irgen, every fourth a vlib.cgen program compiled by the real C front-end; irgen:  (SSA with phis/loops/breaks/continues/early returns, memory-form arbitrary CFGs, "
+RULE = ("three of four modules from vlib.irgen, every fourth a vlib.cgen program compiled by the real C front-end, one in sixteen each a vlib.pygen program through python_to_ir and a vlib.c3gen program through c3_to_ir; irgen:  (SSA with phis/loops/breaks/continues/early returns, memory-form arbitrary CFGs, "
         "globals, blobs, calls, tail calls, externals) are run through ppci.api.optimize(level in 1,2,s) with every "
         "pass wrapped, through single passes and random pass sequences; after every pass that changed the module "
         "(structural hash) all functions are re-executed by the reference interpreter on 3 argument vectors and "
